@@ -18,6 +18,52 @@ CLAIMED = {
             "DESIGN.md section 5, C01"),
 }
 
+SESSION_NOTE = ("Bounds as in spec/Session_<cfg>.cfg (tables of up to 3-5 rows over small row alphabets, 2 value fields, "
+                "histories of up to 2-4 runs); abstract cells are concretised as Integer cells; TLC, the JSON bridge and the "
+                "projection in harness/sessionlib.py are trusted; the projection is exercised by a corruption self-test.")
+
+
+def session(technique_detail, text, ref):
+    return ("TLA+ spec Session.tla (reader/writer/check-state machine): TLC exhaustive over " + technique_detail +
+            "; every behaviour TLC emits is replayed on a real Cid and compared with the specification's prediction",
+            text, SESSION_NOTE, ref)
+
+
+CLAIMED.update({
+    "C04": session("all tables <= 3 rows (thorough 4) x 3 modes x container faults at every row boundary, header 0..2",
+                   "TLC checks RowAcceptedIff and ErrorLocation (stated from the property text, independent of the machine) in "
+                   "every reachable state; every explored run is replayed in delimited and fixed form: accepted / rejected, row "
+                   "number, first offending column, error class, and that the error text names input, RnCm and the field.",
+                   "DESIGN.md section 5, C04"),
+    "C05": session("all tables <= 4 rows (thorough 5) over key alphabets with interleaved rejected rows x 3-8 check lists "
+                   "(key sets of 1-2 fields, every comparison operator)",
+                   "TLC checks UniqueIffEarlierAccepted (incl. see-also = first occurrence) and DistinctAtEnd; replay compares "
+                   "per-row verdicts, see-also row and the end-of-data verdict. The expected-counterexample configuration "
+                   "with RegisterOnReach=TRUE documents known finding D12.",
+                   "DESIGN.md section 5, C05"),
+    "C06": session("all tables <= 3 rows x {raise, yield, continue} x faults at every row boundary, reader API with counters",
+                   "TLC checks ModesAgree, CountersAddUp, FaultStopsEveryMode as relations between the three modes of one table; "
+                   "replay compares yielded items, counters and the escaping error per mode (delimited and fixed).",
+                   "DESIGN.md section 5, C06"),
+    "C07": session("header 0..3 x limit {none, 0..6} x tables <= 4 rows (thorough 5) with a bad row at every position x "
+                   "{rows, validate, with-Reader} APIs",
+                   "TLC checks HeaderNeverValidated, LimitBoundary, ValidateStopsAfterN; replay through cutplace.rows, "
+                   "cutplace.validate, Reader and the command line (--until N exit code).",
+                   "DESIGN.md section 5, C07"),
+    "C08": session("all histories of 2 runs (thorough: 3 exhaustively in the model, 4 by simulation) over 4 data sets sharing keys "
+                   "x 3 APIs x 3 modes x 3 limits x {closed, never closed, abandoned} x writers",
+                   "TLC checks HistoryIndependence (every run equals the same run on a fresh CID) with the check bookkeeping as "
+                   "shared state; each history is replayed on ONE real Cid object. The configuration with ResetOnOpen=FALSE "
+                   "documents the repaired defects D2/D13 as a counterexample.",
+                   "DESIGN.md section 5, C08"),
+    "C14": session("all row sequences <= 3 (thorough 4) mixing accepted rows, field errors, wrong item counts and duplicates "
+                   "x header 0..1",
+                   "TLC checks WriterEmitsAccepted and OutputRevalidates; replay drives cutplace.Writer row by row, compares the "
+                   "stream after every call (nothing emitted for a rejected row, fixed: padded + declared line delimiter) and "
+                   "reads the output back with cutplace.rows.",
+                   "DESIGN.md section 5, C14"),
+})
+
 NOT_BUILT = "check not built yet in this round (planned: see DESIGN.md section 5)"
 
 
